@@ -110,7 +110,7 @@ Theorem save_obj_same_size f c t pad cb f' pages :
      zlen f' = zlen f).
 Proof.
   intros Hp Hs H.
-  destruct (save_obj_step f c t pad cb f' pages Hp Hs H) as (olds & news & k & K & P' & _ & _ & _ & _ & NK & _).
+  destruct (save_obj_step f c t pad cb f' pages Hp Hs H) as (olds & news & k & K & P' & _ & _ & _ & _ & NK & _ & _).
   exists olds, news, k. split; [exact K|]. split; [exact P'|]. intros Hc Hlen.
   pose proof K as (Ep & Eo & S1 & S2 & S3 & S4 & T & N & F). destruct NK as (Hne & _).
   assert (L : Forall2 ogg_like (map fst (cut_run k)) news).
